@@ -131,6 +131,19 @@ def check_one(m_abs, trailer: bytes, shared_options: bool = False, enc=None):
     rem = reader.get_remaining_data()
     if rem != trailer:
         out.append(("consumed:" + op, f"decoder left {len(rem)} bytes, trailer had {len(trailer)}"))
+    if isinstance(m_abs[1], int) and m_abs[1] % 3 == 1:
+        # the next PDU of the stream: the same operation, another id, other controls (rows of a result set each carrying
+        # their own control) - decoded right after, with the same options
+        try:
+            sib_ctl = (("1.2.3.4.5.6", True, b"next-row", None),) if not m_abs[3] else tuple(m_abs[3][1:])
+            sib_abs = (m_abs[0], m_abs[1] + 1, m_abs[2], sib_ctl)
+            sib = av.build(sib_abs)
+            dopts = opts if (shared_options and not enc) else mk_options(enc)
+            got_sib = sl._messages.unpack_ldap_message(sl.asn1.ASN1Reader(sib.pack(opts)), dopts)
+            if av.abstract(got_sib) != av.abstract(sib):
+                out.append(("consecutive-decodes-interfere:" + op, f"decoded right after a PDU with the same operation octets: {str(av.abstract(got_sib)[3])[:120]} expected controls {str(sib_abs[3])[:120]}"))
+        except Exception as e:
+            out.append((f"consecutive-decode-exc:{op}:{norm_msg(e)}", f"{type(e).__name__}: {e}"))
     d = av.same(m, m2, op, _known_ok)
     if d:
         out.append((f"diff:{_path_bucket(d)}", f"decoded message differs at {d}"))
